@@ -57,13 +57,66 @@ def run(rep):
     dis = [{'request': l, 'model': a, 'python': b} for l, a, b in zip(lines, la, pa) if a != b]
     lw = core.py_h(laws)
     bad = [{'request': l, 'python': a} for l, a in zip(laws, lw) if a.startswith('(false') or a.startswith('(raise')]
+    # ---- second half: the steps of the pretty files correspond one-to-one, in order, to the instructions of the binary files
+    from . import modside as ms
+    from .. import genpf, pymach as pm
+    mods = ms.gen_modules(rng, 40 if quick else 800)
+    strs = [genpf.module_to_s(m) for m in mods]
+    memo = core.py_h([f'module-memo {m}' for m in strs])
+    breqs, preqs = [], []
+    for m, S in zip(strs, memo):
+        for mm in (['(memo)'] + ([S] if S.startswith('(memo') else [])):
+            breqs.append(f'module {m} {mm}'); preqs.append(f'module-pretty {m} {mm}')
+    bans = core.py_h(breqs)
+    pans = core.py_h(preqs)
+    KW = {'EVar': 'evar', 'SVar': 'svar', 'Symbol': 'sym', 'MetaVar': 'metavar', 'Implies': 'implies', 'App': 'app',
+          'Exists': 'ex', 'Mu': 'mu', 'ESubst': 'esubst', 'SSubst': 'ssubst', 'Prop1': 'prop1', 'Prop2': 'prop2', 'Prop3': 'prop3',
+          'ModusPonens': 'mp', 'Quantifier': 'quantifier', 'Generalization': 'gen', 'Instantiate': 'instantiate', 'Pop': 'pop',
+          'Save': 'save', 'Load': 'load', 'Publish': 'publish'}
+    step_bad = []
+    n_files = n_steps = 0
+    for br, b, pz in zip(breqs, bans, pans):
+        if b.startswith('(ok') != pz.startswith('(ok'):
+            step_bad.append({'request': br[:3000], 'binary': b[:100], 'pretty': pz[:100], 'problem': 'one format serialises, the other raises'})
+            continue
+        if not b.startswith('(ok'):
+            continue
+        bx, px = sx.parse(b)[0], sx.parse(pz)[0]
+        for fi in (1, 2, 3):
+            bs = [] if bx[fi] == '-' else list(bytes.fromhex(bx[fi]))
+            text = '' if px[fi] == '-' else bytes.fromhex(px[fi]).decode('utf-8')
+            ins = pm.decode(bs)
+            kinds = [('metavar' if i[0] == 'cleanmv' else i[0]) for i in (ins or [])]
+            steps = []
+            for line in text.split('\n'):
+                if line[:1] in ('\t', ' ', ''):
+                    continue
+                tok = ''
+                for kw in KW:
+                    if line.startswith(kw) and len(kw) > len(tok):
+                        tok = kw
+                if tok:
+                    steps.append(KW[tok])
+            n_files += 1
+            n_steps += len(kinds)
+            if ins is None or steps != kinds:
+                j = next((j for j, (x, y) in enumerate(zip(steps, kinds)) if x != y), min(len(steps), len(kinds)))
+                step_bad.append({'request': br[:3000], 'file': ('gamma', 'claim', 'proof')[fi - 1], 'first_difference_at': j,
+                                 'pretty_steps': steps[max(0, j - 3):j + 3], 'binary_instructions': kinds[max(0, j - 3):j + 3],
+                                 'problem': 'pretty steps and binary instructions differ'})
+    rep.coverage.update({
+        'pretty_vs_binary_files': n_files, 'pretty_vs_binary_steps': n_steps,
+    })
+    for b in step_bad[:5]:
+        rep.violation('pretty-printed steps do not correspond to the binary instructions: ' + b['problem'], b, True,
+                      key='py-steps:' + b['request'][:200])
     rep.coverage.update({
         'evaluations': len(lines) + len(laws), 'distinct_nontrivial': len(set(lines)) + len(set(laws)),
         'rule': 'every shipped notation (%d table entries: propositional, definedness, Kore, generated n-ary/cell, sorted and '
                 'Kore quantifiers, forall) at %d random argument tuples each (nested notation to depth 2), plus random patterns: '
                 'pretty() model vs real; law on the REAL code: tuples differing at one position that changes the denotation '
                 'and whose two arguments print differently must print differently' % (len(nots), reps),
-        'programs': len(lines) + len(laws), 'disagreements_checked': len(dis) + len(bad),
+        'programs': len(lines) + len(laws) + len(breqs), 'disagreements_checked': len(dis) + len(bad) + len(step_bad),
         'law_outcomes': {k: sum(1 for a in lw if a == k) for k in ('true', 'same-denotation', 'args-print-equal')},
         'samples': [lines[0], lines[-1], laws[0], pa[0], pa[-1]],
     })
@@ -74,7 +127,7 @@ def run(rep):
         for d in dis[:5]:
             rep.violation('pretty() differs from the model; no hidden argument found',
                           dict(d, broken='correspondence pretty Python↔Pi2.PrettyPat'), False)
-    if not ok and not (bad or dis):
+    if not ok and not (bad or dis or step_bad):
         rep.violation('proof obligation of C19 no longer checks: ' + json.dumps(detail)[:600], {'broken': detail}, False)
     return rep
 
